@@ -113,6 +113,14 @@ def git_cross_validate(n_dags, seed):
                         _git(repo, "symbolic-ref", "HEAD", "refs/heads/" + g["cur_branch"])
                     else:
                         _git(repo, "update-ref", "--no-deref", "HEAD", h)
+                elif a == "tag":
+                    t_ = g.get("tags", {}).get(op["name"])
+                    if t_ is not None:
+                        if t_["annotated"]:
+                            _git(repo, "-c", "user.name=t", "-c", "user.email=t@example.org", "tag", "-a", "-m", "release",
+                                 op["name"], real_hash[t_["commit"]])
+                        else:
+                            _git(repo, "tag", op["name"], real_hash[t_["commit"]])
                 elif a == "checkout":
                     if g.get("cur_branch"):
                         if g["head"]:
@@ -130,6 +138,9 @@ def git_cross_validate(n_dags, seed):
                 # binary, then put every argv it used to the real binary as well (hashes translated)
                 names = sorted(g.get("commits", {}))
                 f2r = {sim.commit_hash(n): real_hash[n] for n in names}
+                for tn_, t_ in g.get("tags", {}).items():
+                    if t_["annotated"]:
+                        f2r[sim.tag_object_hash(tn_)] = _git(repo, "rev-parse", tn_).stdout.strip()
                 r2f = {v: k for k, v in f2r.items()}
                 world.git.log = []
                 global_cur = sim.CUR
@@ -143,8 +154,14 @@ def git_cross_validate(n_dags, seed):
                         for y in names:
                             if fake.is_ancestor(sim.commit_hash(x), sim.commit_hash(y)):
                                 fake.get_distance(sim.commit_hash(x), sim.commit_hash(y))
-                    for sym in list(g.get("branches", {})) + ["HEAD", "nosuch", "deadbeef"]:
-                        fake.rev_parse(sym)
+                    for sym in list(g.get("branches", {})) + list(g.get("tags", {})) + ["HEAD", "nosuch", "deadbeef"]:
+                        h_ = fake.rev_parse(sym)
+                        if h_ and g.get("head"):
+                            # what --at-least does with the symbol it was given
+                            fake.is_ancestor(sim.commit_hash(g["head"]), h_)
+                    for tn_ in g.get("tags", {}):
+                        world.git.run(["git", "rev-parse", tn_ + "^{commit}"], capture_output=True, text=True)
+                        world.git.run(["git", "rev-parse", "--verify", tn_ + "^{commit}"], capture_output=True, text=True)
                     if g.get("head"):
                         for argv in (["git", "diff", "--quiet"], ["git", "diff", "--cached", "--quiet"],
                                      ["git", "diff", "--quiet", "HEAD"], ["git", "diff-index", "--quiet", "--cached", "HEAD"],
